@@ -122,6 +122,23 @@ func c09SpecialSeq(g *gen.G, which int) *c09Seq {
 		c2 := &gen.Change{Kind: "expr", Schema: "c09-step-2", Meta: x, Lines: []gen.Line{gen.L('-', "stepB(‹1:args›, «x», ‹2:args›)"), gen.L('+', "stepC(‹1:args›, wrap(«x»), ‹2:args›)")}}
 		c3 := &gen.Change{Kind: "expr", Schema: "c09-step-3", Meta: x, Lines: []gen.Line{gen.L('-', "stepC(‹1:args›, wrap(«x»), ‹2:args›)"), gen.L('+', "stepD(«x», ‹2:args›, ‹1:args›)")}}
 		return &c09Seq{changes: []*gen.Change{c1, c2, c3}, roles: []string{"step", "step-same-text", "step-same-text"}, base: c1}
+	case 6:
+		// an earlier change puts captured code under an operator that needs parentheses around it; the later change
+		// spells those parentheses: it matches the file the earlier change would write, so it matches in the combined run
+		switch g.R.Intn(3) {
+		case 0:
+			c1 := mk("expr", "c09-generates-under-operator", x, nil, "scale(«x»)", "2 * «x»")
+			c2 := mk("expr", "c09-spells-the-parentheses", y, nil, "2 * («y»)", "double(«y»)")
+			return &c09Seq{changes: []*gen.Change{c1, c2}, roles: []string{"generates-under-operator", "spells-the-parentheses"}, base: c1, extra: []string{"scale(%s + b)", "scale(a - %s)"}}
+		case 1:
+			c1 := mk("expr", "c09-generates-under-operator", x, nil, "sel(«x»)", "«x».Field")
+			c2 := mk("expr", "c09-spells-the-parentheses", y, nil, "(«y»).Field", "field(«y»)")
+			return &c09Seq{changes: []*gen.Change{c1, c2}, roles: []string{"generates-under-selector", "spells-the-parentheses"}, base: c1, extra: []string{"sel(%s + b)", "sel(-%s)", "sel(*%s)"}}
+		default:
+			c1 := mk("expr", "c09-generates-under-operator", x, nil, "neg(«x»)", "-«x»")
+			c2 := mk("expr", "c09-spells-the-parentheses", y, nil, "-(«y»)", "minus(«y»)")
+			return &c09Seq{changes: []*gen.Change{c1, c2}, roles: []string{"generates-under-unary", "spells-the-parentheses"}, base: c1, extra: []string{"neg(%s + b)", "neg(a * %s)"}}
+		}
 	default:
 		// a later change is guarded by an import that only an earlier change adds (and by a package clause that only
 		// an earlier change makes true)
@@ -339,6 +356,8 @@ func runC09(ctx *core.Ctx, idx int) *core.Result {
 		seq = c09SpecialSeq(g, 4)
 	case 20:
 		seq = c09SpecialSeq(g, 5)
+	case 17:
+		seq = c09SpecialSeq(g, 6)
 	}
 	// files
 	nf := 3
